@@ -87,10 +87,13 @@ structure L (K V : Type) where
   /-- ghost: the (key, value) pairs this call's `GetAndDelete`/`Delete`/`DeleteExpired` `Compute`s have physically
   removed from `items` so far (never read by non-ghost code) -/
   erased : List (K × V)
+  /-- ghost: the (key, value) pairs this call has invoked the evicted callback with so far, in order (appended
+  exactly where `G.ledger` is appended, reset where `erased` is reset; never read by non-ghost code) -/
+  fired : List (K × V)
 
 def L.init {K V : Type} : L K V :=
   { pc := .idle, op := none, d := 0, e := 0, loaded := none, passNow := 0, ec := none, todo := [], cur := none,
-    queue := [], removed := none, result := none, absAtLoad := none, nowAtLoad := 0, erased := [] }
+    queue := [], removed := none, result := none, absAtLoad := none, nowAtLoad := 0, erased := [], fired := [] }
 
 /-- environment inputs of one step -/
 structure Choice (K V : Type) where
@@ -108,7 +111,8 @@ variable {K V : Type} [DecidableEq K] [Inhabited V]
 def view (g : G K V) : CSt K V := { items := g.items, now := g.now, dflt := g.dflt, cb := g.cb }
 
 def startOp (l : L K V) (op : COp K V) : L K V :=
-  let l := { l with op := some op, result := none, loaded := none, queue := [], removed := none, cur := none, erased := [] }
+  let l := { l with op := some op, result := none, loaded := none, queue := [], removed := none, cur := none, erased := [],
+                    fired := [] }
   match op with
   | .set _ _ d => { l with pc := if d = Gen.DefaultExpiration then .setReadDflt else .setReadClock, d := d }
   | .get _ | .getWithExpiration _ | .getWithTTL _ => { l with pc := .getLoad }
@@ -230,7 +234,7 @@ def tstep (_t : Tid) (g : G K V) (l : L K V) (c : Choice K V) : Option (G K V ×
   | .gdReadCb => some (g, { l with pc := .gdFire, ec := g.cb })
   | .gdFire =>
     match opKey l, l.removed, l.ec with
-    | some k, some i, some cbid => some ({ g with ledger := g.ledger ++ [(cbid, k, i.v)] }, { l with pc := .ret })
+    | some k, some i, some cbid => some ({ g with ledger := g.ledger ++ [(cbid, k, i.v)] }, { l with pc := .ret, fired := l.fired ++ [(k, i.v)] })
     | _, _, _ => some (g, { l with pc := .ret })
   -- ------------------------------------------------------------------ DeleteExpired
   | .deReadCb => some (g, { l with pc := .deReadClock, ec := g.cb })
@@ -261,7 +265,7 @@ def tstep (_t : Tid) (g : G K V) (l : L K V) (c : Choice K V) : Option (G K V ×
     | none => none
   | .deFire =>
     match l.queue, l.ec with
-    | (k, v) :: rest, some cbid => some ({ g with ledger := g.ledger ++ [(cbid, k, v)] }, { l with queue := rest })
+    | (k, v) :: rest, some cbid => some ({ g with ledger := g.ledger ++ [(cbid, k, v)] }, { l with queue := rest, fired := l.fired ++ [(k, v)] })
     | _, _ => some (g, { l with pc := .ret, queue := [], result := some .unit })
   -- ------------------------------------------------------------------ the rest
   | .clClear => some (linearize { g with items := [] } .clear, { l with pc := .ret, result := some .unit })
